@@ -12,6 +12,7 @@ import EinoV.Proofs.C03
 import EinoV.Gen.FactsC03
 import EinoV.Expected.C03
 import EinoV.Proofs.C03Engine
+import EinoV.Proofs.C02Confluence
 import EinoV.Model.C03Loop
 import EinoV.Proofs.C03Loop
 
@@ -577,5 +578,35 @@ theorem pregel_run_schedule_independent {V : Type} (ops : EinoV.Engine.ValOps V)
     (hok : (EinoV.Engine.runS ops r sched x).result = .ok v) :
     EinoV.Engine.runS ops r sched' x = EinoV.Engine.runS ops r sched x :=
   EinoV.Engine.pregel_run_sched_independent ops hm r h hk sched sched' hf hf' x v hok
+
+open EinoV.Engine EinoV.Engine.DagRun in
+/-- **dag_result_schedule_independent** (engine level, all-predecessor mode, batch loop).  For every
+    well-formed acyclic runner (`DagWF`, `DagWF2`, `DagWF3`: a channel with data predecessors has a
+    control predecessor, START has no predecessors, the predecessor tables are acyclic), every
+    order-insensitive merge and every input: if the runs under two fair completion schedules both
+    return a value, it is the same value.  Proof: the history of a run is *grounded* (every
+    completion is the output of a node started on facts drawn from the history: a control
+    predecessor completed and routed, every data predecessor completed or is skipped, the input is
+    the merge of exactly the routed values), and two grounded histories of one runner agree, by
+    induction along the predecessor order (`Proofs/C02Confluence.lean`). -/
+theorem dag_result_schedule_independent {V : Type} (ops : ValOps V) (hm : MergePerm ops) (r : Runner V)
+    (wf : DagWF r) (wf2 : DagWF2 r) (wf3 : DagWF3 r) (sA sB : Sched V) (hfA : sA.Fair) (hfB : sB.Fair)
+    (x vA vB : V) (hA : (runS ops r sA x).result = .ok vA) (hB : (runS ops r sB x).result = .ok vB) : vA = vB :=
+  run_result_sched_independent ops hm r wf wf2 wf3 sA sB hfA hfB x vA vB hA hB
+
+open EinoV.Engine EinoV.Engine.DagRun in
+/-- **dag_outputs_schedule_independent.** … and the node executions that feed the results agree: a
+    node that completed in both runs completed with the same output (hence ran on the same input). -/
+theorem dag_outputs_schedule_independent {V : Type} (ops : ValOps V) (hm : MergePerm ops) (r : Runner V)
+    (wf : DagWF r) (wf2 : DagWF2 r) (wf3 : DagWF3 r) (sA sB : Sched V) (hfA : sA.Fair) (hfB : sB.Fair) (x : V)
+    (n : Key) (o o' : V)
+    (hA : (n, o) ∈ histOf r x (runS ops r sA x).trace.reverse)
+    (hB : (n, o') ∈ histOf r x (runS ops r sB x).trace.reverse) : o = o' :=
+  run_outputs_sched_independent ops hm r wf wf2 wf3 sA sB hfA hfB x n o o' hA hB
+
+open EinoV.Engine EinoV.Engine.DagRun in
+/-- **dag_wf3_check_sound.** The executable check of `DagWF3` (evaluated by the C02 oracle on every
+    generated all-predecessor case) implies it. -/
+theorem dag_wf3_check_sound {V : Type} (r : Runner V) (h : dagWF3b r = true) : DagWF3 r := dagWF3b_sound r h
 
 end EinoV.C03
